@@ -1,5 +1,757 @@
 package gosym
 
-func registerEnvStubs(e *Engine) {}
+import (
+	"bytes"
+	"encoding/json"
+	"fmt"
+	"go/types"
+	"reflect"
+	"strings"
+	"time"
+	"unicode"
+	"unsafe"
+
+	"golang.org/x/tools/go/ssa"
+	"gopkg.in/yaml.v3"
+
+	"verif/smt"
+)
 
 type scheduler struct{}
+
+// ---- environment model state (per path) ---------------------------------------
+
+type fileState struct {
+	exists   bool
+	readonly bool
+	content  []*smt.Term
+}
+
+type fileHandle struct {
+	f      *fileState
+	off    int
+	app    bool
+	std    int // 1 stdout, 2 stderr
+	closed bool
+}
+
+type envModel struct {
+	files    map[string]*fileState
+	stdout   []*smt.Term
+	stderr   []*smt.Term
+	exitCode int
+	exited   bool
+	args     []value
+	clockN   int
+	lastT    *smt.Term
+	stubsOn  map[string]bool
+	errNotEx value
+	logs     []string
+}
+
+func (ps *pathState) env() *envModel {
+	if e, ok := ps.store["env"]; ok {
+		return e.(*envModel)
+	}
+	e := &envModel{files: map[string]*fileState{}, exitCode: -1, stubsOn: map[string]bool{}}
+	ps.store["env"] = e
+	return e
+}
+
+func (ps *pathState) newFlag(name string) value {
+	name = ps.uniq(name)
+	v := ps.newVar("flag_"+name, 0)
+	ps.inputs = append(ps.inputs, &Input{Name: "flag:" + name, Kind: "bool", Terms: []*smt.Term{v}})
+	s := sym{t: v, k: types.Bool, ps: ps}
+	ps.flags[name] = s
+	return s
+}
+
+func (ps *pathState) flagDecide(name string) bool {
+	f := ps.newFlag(name).(sym)
+	return ps.decide(f.t)
+}
+
+func (i *interpreter) zeroOf(pkg, name string) value {
+	return zero(i.eng.namedType(pkg, name))
+}
+
+func errIface(i *interpreter, msg string) value { return i.newError(msg) }
+
+func registerEnvStubs(e *Engine) {
+	in := e.intr
+	const regoPkg = "github.com/open-policy-agent/opa/rego"
+	const ldPkg = "github.com/piprate/json-gold/ld"
+
+	// ---------- harness-side environment API ----------
+	in["zz.StubOn"] = func(fr *frame, a []value) value {
+		fr.i.ps.env().stubsOn[mustStr(a[0], "StubOn")] = true
+		return nil
+	}
+	in["zz.SetArgs"] = func(fr *frame, a []value) value {
+		env := fr.i.ps.env()
+		env.args = append([]value{}, sliceOfStrings(a[0])...)
+		return nil
+	}
+	in["zz.FSPut"] = func(fr *frame, a []value) value {
+		env := fr.i.ps.env()
+		env.files[mustStr(a[0], "FSPut path")] = &fileState{exists: true, content: append([]*smt.Term{}, strTerms(a[1])...), readonly: a[2].(bool)}
+		return nil
+	}
+	in["zz.FSGet"] = func(fr *frame, a []value) value {
+		env := fr.i.ps.env()
+		f := env.files[mustStr(a[0], "FSGet path")]
+		if f == nil || !f.exists {
+			return tuple{"", false}
+		}
+		return tuple{normStr(fr.i.ps, f.content), true}
+	}
+	in["zz.Stdout"] = func(fr *frame, a []value) value { return normStr(fr.i.ps, fr.i.ps.env().stdout) }
+	in["zz.Stderr"] = func(fr *frame, a []value) value { return normStr(fr.i.ps, fr.i.ps.env().stderr) }
+	in["zz.ExitCode"] = func(fr *frame, a []value) value { return fr.i.ps.env().exitCode }
+	in["zz.Log"] = func(fr *frame, a []value) value {
+		out := []value{}
+		for _, l := range fr.i.ps.env().logs {
+			out = append(out, l)
+		}
+		return out
+	}
+	in["zz.LastEncoded"] = func(fr *frame, a []value) value {
+		if v, ok := fr.i.ps.store["encoded"]; ok {
+			return v
+		}
+		return iface{}
+	}
+	in["zz.RegoCompiles"] = func(fr *frame, a []value) value {
+		return regoCompiles(mustStr(a[0], "RegoCompiles code"))
+	}
+
+	// ---------- library-level stubs (enabled per path with StubOn) ----------
+	in["zz.SetLibResult"] = func(fr *frame, a []value) value {
+		fr.i.ps.store["lib."+mustStr(a[0], "SetLibResult name")] = []value{a[1], a[2]}
+		return nil
+	}
+	libRes := func(fr *frame, name string) (value, bool) {
+		r, ok := fr.i.ps.store["lib."+name].([]value)
+		if !ok {
+			panic(unsupported{"library stub " + name + " enabled without SetLibResult"})
+		}
+		fail := false
+		switch f := r[1].(type) {
+		case bool:
+			fail = f
+		case sym:
+			fail = f.ps.decide(f.t)
+		}
+		return r[0], fail
+	}
+	mp := e.ModPath
+	e.repoStubs = map[string]intrinsic{
+		mp + "/internal/validator.Validate": func(fr *frame, a []value) value {
+			text, fail := libRes(fr, "validator.Validate")
+			if fail {
+				return tuple{"", errIface(fr.i, "stub: library failure")}
+			}
+			return tuple{text, iface{}}
+		},
+		mp + "/internal/validator.GenerateRego": func(fr *frame, a []value) value {
+			text, fail := libRes(fr, "validator.GenerateRego")
+			if fail {
+				return tuple{(*value)(nil), errIface(fr.i, "stub: library failure")}
+			}
+			ru := fr.i.zeroOf(mp+"/internal/generator", "RegoUnit").(structure)
+			ru[2] = text
+			var cell value = ru
+			return tuple{&cell, iface{}}
+		},
+		mp + "/internal/validator.ProcessInput": func(fr *frame, a []value) value {
+			text, fail := libRes(fr, "validator.ProcessInput")
+			if fail {
+				return tuple{iface{}, errIface(fr.i, "stub: library failure")}
+			}
+			return tuple{iface{t: types.Typ[types.String], v: text}, iface{}}
+		},
+		mp + "/internal/validator.Encode": func(fr *frame, a []value) value {
+			text, _ := libRes(fr, "validator.Encode")
+			return text
+		},
+		mp + "/internal/validator.ProcessProfile": func(fr *frame, a []value) value {
+			_, fail := libRes(fr, "validator.ProcessProfile")
+			if fail {
+				return tuple{(*value)(nil), errIface(fr.i, "stub: library failure")}
+			}
+			var cell value = fr.i.zeroOf(regoPkg, "PreparedEvalQuery")
+			return tuple{&cell, iface{}}
+		},
+	}
+
+	// ---------- os / io ----------
+	externGlobals["os.Args"] = func(i *interpreter, g *ssa.Global) value {
+		return append([]value{}, i.ps.env().args...)
+	}
+	externGlobals["os.ErrNotExist"] = func(i *interpreter, g *ssa.Global) value {
+		env := i.ps.env()
+		if env.errNotEx == nil {
+			env.errNotEx = i.newError("file does not exist")
+		}
+		return env.errNotEx
+	}
+	externGlobals["os.Stderr"] = func(i *interpreter, g *ssa.Global) value {
+		var cell value = nativeObj{&fileHandle{std: 2}}
+		return &cell
+	}
+	externGlobals["os.Stdout"] = func(i *interpreter, g *ssa.Global) value {
+		var cell value = nativeObj{&fileHandle{std: 1}}
+		return &cell
+	}
+	externGlobals["time.UTC"] = func(i *interpreter, g *ssa.Global) value {
+		var cell value = nativeObj{time.UTC}
+		return &cell
+	}
+	in["os.Exit"] = func(fr *frame, a []value) value {
+		env := fr.i.ps.env()
+		env.exitCode = int(asInt64(a[0]))
+		env.exited = true
+		// visible to the harness (which recovers it), like a process ending here
+		panic(targetPanic{iface{t: types.Typ[types.String], v: "os.Exit"}})
+	}
+	readFile := func(fr *frame, a []value) value {
+		env := fr.i.ps.env()
+		f := env.files[mustStr(a[0], "ReadFile path")]
+		if f == nil || !f.exists {
+			return tuple{[]value(nil), errIface(fr.i, "open: no such file or directory")}
+		}
+		out := make([]value, len(f.content))
+		for k, b := range f.content {
+			out[k] = sstr{ps: fr.i.ps}.byteVal(b)
+		}
+		return tuple{out, iface{}}
+	}
+	in["io/ioutil.ReadFile"] = readFile
+	in["os.ReadFile"] = readFile
+	in["os.Stat"] = func(fr *frame, a []value) value {
+		env := fr.i.ps.env()
+		f := env.files[mustStr(a[0], "Stat path")]
+		if f == nil || !f.exists {
+			if env.errNotEx == nil {
+				env.errNotEx = fr.i.newError("file does not exist")
+			}
+			return tuple{iface{}, env.errNotEx}
+		}
+		return tuple{iface{}, iface{}}
+	}
+	in["errors.Is"] = func(fr *frame, a []value) value {
+		x, y := a[0].(iface), a[1].(iface)
+		if x.t == nil || y.t == nil {
+			return x.t == nil && y.t == nil
+		}
+		px, ok1 := x.v.(*value)
+		py, ok2 := y.v.(*value)
+		return ok1 && ok2 && px == py
+	}
+	const (
+		oWRONLY = 1
+		oRDWR   = 2
+		oAPPEND = 0x400
+		oCREATE = 0x40
+		oTRUNC  = 0x200
+	)
+	openFile := func(fr *frame, path string, flag int) value {
+		env := fr.i.ps.env()
+		f := env.files[path]
+		if f == nil || !f.exists {
+			if flag&oCREATE == 0 {
+				return tuple{(*value)(nil), errIface(fr.i, "open "+path+": no such file or directory")}
+			}
+			f = &fileState{exists: true}
+			env.files[path] = f
+		} else if f.readonly && flag&(oWRONLY|oRDWR) != 0 {
+			return tuple{(*value)(nil), errIface(fr.i, "open "+path+": permission denied")}
+		}
+		if flag&oTRUNC != 0 {
+			f.content = nil
+		}
+		var cell value = nativeObj{&fileHandle{f: f, app: flag&oAPPEND != 0}}
+		return tuple{&cell, iface{}}
+	}
+	in["os.OpenFile"] = func(fr *frame, a []value) value {
+		return openFile(fr, mustStr(a[0], "OpenFile path"), int(asInt64(a[1])))
+	}
+	in["os.Create"] = func(fr *frame, a []value) value {
+		return openFile(fr, mustStr(a[0], "Create path"), oRDWR|oCREATE|oTRUNC)
+	}
+	in["os.Open"] = func(fr *frame, a []value) value {
+		return openFile(fr, mustStr(a[0], "Open path"), 0)
+	}
+	handleOf := func(v value) *fileHandle { return (*v.(*value)).(nativeObj).v.(*fileHandle) }
+	writeTo := func(fr *frame, h *fileHandle, ts []*smt.Term) {
+		env := fr.i.ps.env()
+		switch h.std {
+		case 1:
+			env.stdout = append(env.stdout, ts...)
+			return
+		case 2:
+			env.stderr = append(env.stderr, ts...)
+			return
+		}
+		if h.app {
+			h.off = len(h.f.content)
+		}
+		for k, b := range ts {
+			if h.off+k < len(h.f.content) {
+				h.f.content[h.off+k] = b
+			} else {
+				h.f.content = append(h.f.content, b)
+			}
+		}
+		h.off += len(ts)
+	}
+	in["(*os.File).WriteString"] = func(fr *frame, a []value) value {
+		ts := strTerms(a[1])
+		writeTo(fr, handleOf(a[0]), ts)
+		return tuple{len(ts), iface{}}
+	}
+	in["(*os.File).Sync"] = func(fr *frame, a []value) value { return iface{} }
+	in["(*os.File).Close"] = func(fr *frame, a []value) value { return iface{} }
+	in["fmt.Println"] = func(fr *frame, a []value) value {
+		var parts []value
+		for k, x := range sliceOfStrings(a[0]) {
+			if k > 0 {
+				parts = append(parts, " ")
+			}
+			parts = append(parts, fr.i.formatOne(fr, 'v', x))
+		}
+		parts = append(parts, "\n")
+		ts := strTerms(concatStr(fr.i.ps, parts))
+		fr.i.ps.env().stdout = append(fr.i.ps.env().stdout, ts...)
+		return tuple{len(ts), iface{}}
+	}
+	in["fmt.Printf"] = func(fr *frame, a []value) value {
+		ts := strTerms(fr.i.format(fr, a[0], sliceOfStrings(a[1])))
+		fr.i.ps.env().stdout = append(fr.i.ps.env().stdout, ts...)
+		return tuple{len(ts), iface{}}
+	}
+	in["fmt.Fprintf"] = func(fr *frame, a []value) value {
+		w := a[0].(iface)
+		ts := strTerms(fr.i.format(fr, a[1], sliceOfStrings(a[2])))
+		writeTo(fr, handleOf(w.v), ts)
+		return tuple{len(ts), iface{}}
+	}
+
+	// ---------- time ----------
+	in["time.Now"] = func(fr *frame, a []value) value {
+		ps := fr.i.ps
+		env := ps.env()
+		t := fr.i.zeroOf("time", "Time").(structure)
+		name := ps.uniq("clock")
+		v := ps.newVar(name, 64)
+		ps.inputs = append(ps.inputs, &Input{Name: name, Kind: "int", Terms: []*smt.Term{v}, Width: 64})
+		lo := smt.BV(0, 64)
+		if env.lastT != nil {
+			lo = env.lastT
+		}
+		// arbitrary non-decreasing instants (nanoseconds, bounded so that differences cannot wrap)
+		ps.assertPC(smt.And(smt.BvCmp(smt.OpBvSle, lo, v), smt.BvCmp(smt.OpBvSle, v, smt.BV(1<<40, 64))))
+		ps.model = nil
+		env.lastT = v
+		env.clockN++
+		t[1] = sym{t: v, k: types.Int64, ps: ps}
+		return t
+	}
+	in["(time.Time).Sub"] = func(fr *frame, a []value) value {
+		t, u := a[0].(structure), a[1].(structure)
+		return binopKind(fr.i.ps, smt.OpBvSub, t[1], u[1], types.Int64)
+	}
+	in["time.Date"] = func(fr *frame, a []value) value {
+		t := fr.i.zeroOf("time", "Time").(structure)
+		nt := time.Date(int(asInt64(a[0])), time.Month(asInt64(a[1])), int(asInt64(a[2])), int(asInt64(a[3])), int(asInt64(a[4])), int(asInt64(a[5])), int(asInt64(a[6])), time.UTC)
+		t[1] = nt.UnixNano()
+		t[0] = uint64(1) // marks "calendar time" (concrete) as opposed to a stubbed clock reading
+		return t
+	}
+	in["(time.Time).Format"] = func(fr *frame, a []value) value {
+		t := a[0].(structure)
+		layout := mustStr(a[1], "Format layout")
+		switch x := t[1].(type) {
+		case int64:
+			return time.Unix(0, x).UTC().Format(layout)
+		case sym:
+			n := int64(x.concretize())
+			return time.Unix(0, n).UTC().Format(layout)
+		}
+		panic(unsupported{"time.Format"})
+	}
+	in["(time.Duration).Microseconds"] = func(fr *frame, a []value) value { return asInt64(a[0]) / 1000 }
+	in["context.Background"] = func(fr *frame, a []value) value { return iface{} }
+
+	// ---------- encoding/json ----------
+	in["bytes.NewBuffer"] = func(fr *frame, a []value) value {
+		var cell value = nativeObj{a[0]}
+		return &cell
+	}
+	in["encoding/json.NewDecoder"] = func(fr *frame, a []value) value {
+		var cell value = nativeObj{"json.Decoder"}
+		return &cell
+	}
+	in["(*encoding/json.Decoder).UseNumber"] = func(fr *frame, a []value) value { return nil }
+	in["(*encoding/json.Decoder).Decode"] = func(fr *frame, a []value) value {
+		ps := fr.i.ps
+		ps.env().logs = append(ps.env().logs, "json.Decode")
+		if ps.flagDecide("decode.err") {
+			return errIface(fr.i, "stub: invalid character looking for beginning of value")
+		}
+		// the decoded document is opaque: Flatten (also a stub) is its only consumer
+		dst := a[1].(iface).v.(*value)
+		*dst = iface{t: types.Typ[types.String], v: "<<decoded-json-document>>"}
+		return iface{}
+	}
+	in["encoding/json.Marshal"] = func(fr *frame, a []value) value {
+		b, err := json.Marshal(toNativeJSON(a[0]))
+		if err != nil {
+			return tuple{[]value(nil), fr.i.nativeErr(err)}
+		}
+		out := make([]value, len(b))
+		for k := range b {
+			out[k] = b[k]
+		}
+		return tuple{out, iface{}}
+	}
+
+	// ---------- json-gold ----------
+	in[ldPkg+".NewJsonLdProcessor"] = func(fr *frame, a []value) value {
+		var cell value = nativeObj{"ld.Processor"}
+		return &cell
+	}
+	in[ldPkg+".NewJsonLdOptions"] = func(fr *frame, a []value) value {
+		var cell value = nativeObj{"ld.Options"}
+		return &cell
+	}
+	in["(*"+ldPkg+".JsonLdProcessor).Flatten"] = func(fr *frame, a []value) value {
+		ps := fr.i.ps
+		ps.env().logs = append(ps.env().logs, "ld.Flatten")
+		if ps.flagDecide("flatten.err") {
+			return tuple{iface{}, errIface(fr.i, "stub: invalid local context")}
+		}
+		if g, ok := ps.store["flatten.result"]; ok {
+			return tuple{g, iface{}}
+		}
+		// default: a graph with a single typed node
+		mt := types.NewMap(types.Typ[types.String], anyType)
+		node := makeMap(types.Typ[types.String], 0).(*omap)
+		node.insert("@id", iface{t: types.Typ[types.String], v: "n1"})
+		node.insert("@type", iface{t: types.Typ[types.String], v: "http://example.org/C"})
+		top := makeMap(types.Typ[types.String], 0).(*omap)
+		top.insert("@graph", iface{t: types.NewSlice(anyType), v: []value{iface{t: mt, v: node}}})
+		return tuple{iface{t: mt, v: top}, iface{}}
+	}
+	in["zz.SetFlattenResult"] = func(fr *frame, a []value) value {
+		fr.i.ps.store["flatten.result"] = a[0]
+		return nil
+	}
+
+	// ---------- OPA ----------
+	type regoOpt struct {
+		kind string
+		a, b value
+	}
+	mkOpt := func(o regoOpt) value { return &closure{Fn: nil, Env: []value{nativeObj{o}}} }
+	in[regoPkg+".Query"] = func(fr *frame, a []value) value { return mkOpt(regoOpt{"query", a[0], nil}) }
+	in[regoPkg+".Module"] = func(fr *frame, a []value) value { return mkOpt(regoOpt{"module", a[0], a[1]}) }
+	in[regoPkg+".UnsafeBuiltins"] = func(fr *frame, a []value) value { return mkOpt(regoOpt{"unsafe", a[0], nil}) }
+	in[regoPkg+".EvalInput"] = func(fr *frame, a []value) value { return mkOpt(regoOpt{"input", a[0], nil}) }
+	in[regoPkg+".New"] = func(fr *frame, a []value) value {
+		var opts []regoOpt
+		for _, o := range sliceOfStrings(a[0]) {
+			opts = append(opts, o.(*closure).Env[0].(nativeObj).v.(regoOpt))
+		}
+		ps := fr.i.ps
+		n, _ := ps.store["rego.New.count"].(int)
+		ps.store["rego.New.count"] = n + 1
+		rec := map[string]value{}
+		for _, o := range opts {
+			switch o.kind {
+			case "query":
+				rec["query"] = o.a
+			case "module":
+				rec["module.name"] = o.a
+				rec["module.code"] = o.b
+			case "unsafe":
+				rec["unsafe"] = o.a
+			}
+		}
+		ps.store[fmt.Sprintf("rego.New.%d", n)] = rec
+		var cell value = nativeObj{rec}
+		return &cell
+	}
+	in["zz.RegoNewCount"] = func(fr *frame, a []value) value {
+		n, _ := fr.i.ps.store["rego.New.count"].(int)
+		return n
+	}
+	in["zz.RegoNewOption"] = func(fr *frame, a []value) value {
+		rec, _ := fr.i.ps.store[fmt.Sprintf("rego.New.%d", asInt64(a[0]))].(map[string]value)
+		v, ok := rec[mustStr(a[1], "RegoNewOption key")]
+		if !ok {
+			return iface{}
+		}
+		switch x := v.(type) {
+		case string, sstr:
+			return iface{t: types.Typ[types.String], v: x}
+		case *omap:
+			keys := []value{}
+			for _, i := range x.liveIndices() {
+				keys = append(keys, x.keys[i])
+			}
+			return iface{t: types.NewSlice(types.Typ[types.String]), v: keys}
+		}
+		return iface{}
+	}
+	in["(*"+regoPkg+".Rego).PrepareForEval"] = func(fr *frame, a []value) value {
+		ps := fr.i.ps
+		ps.env().logs = append(ps.env().logs, "rego.PrepareForEval")
+		pq := fr.i.zeroOf(regoPkg, "PreparedEvalQuery").(structure)
+		if ps.flagDecide("compile.err") {
+			return tuple{pq, errIface(fr.i, "stub: rego compile error")}
+		}
+		// remember which Rego object this query came from
+		inner := pq[0].(structure)
+		inner[0] = a[0]
+		return tuple{pq, iface{}}
+	}
+	in["("+regoPkg+".PreparedEvalQuery).Eval"] = func(fr *frame, a []value) value {
+		ps := fr.i.ps
+		ps.env().logs = append(ps.env().logs, "rego.Eval")
+		rsT := fr.i.eng.namedType(regoPkg, "ResultSet")
+		if ps.flagDecide("eval.err") {
+			return tuple{zero(rsT), errIface(fr.i, "stub: eval error")}
+		}
+		if ps.flagDecide("eval.empty") {
+			return tuple{[]value{}, iface{}}
+		}
+		var rv value
+		if r, ok := ps.store["eval.result"]; ok {
+			rv = deepCopyJSON(r)
+		} else {
+			mt := types.NewMap(types.Typ[types.String], anyType)
+			m := makeMap(types.Typ[types.String], 0).(*omap)
+			m.insert("profile", iface{t: types.Typ[types.String], v: "stub-profile"})
+			for _, l := range []string{"violation", "warning", "info"} {
+				m.insert(l, iface{t: types.NewSlice(anyType), v: []value{}})
+			}
+			rv = iface{t: mt, v: m}
+		}
+		ev := fr.i.zeroOf(regoPkg, "ExpressionValue").(structure)
+		ev[0] = rv
+		var evCell value = ev
+		res := fr.i.zeroOf(regoPkg, "Result").(structure)
+		res[0] = []value{&evCell}
+		return tuple{[]value{res}, iface{}}
+	}
+	in["zz.SetEvalResult"] = func(fr *frame, a []value) value {
+		fr.i.ps.store["eval.result"] = a[0]
+		return nil
+	}
+	for _, b := range []string{"HTTPSend", "WalkBuiltin", "OPARuntime", "RegoParseModule", "NetLookupIPAddr"} {
+		b := b
+		externGlobals["github.com/open-policy-agent/opa/ast."+b] = func(i *interpreter, g *ssa.Global) value {
+			bt := i.zeroOf("github.com/open-policy-agent/opa/ast", "Builtin").(structure)
+			bt[0] = opaBuiltinName(b)
+			var cell value = bt
+			return &cell
+		}
+	}
+
+	// ---------- yaml (native on concrete text) ----------
+	in["gopkg.in/yaml.v3.Unmarshal"] = func(fr *frame, a []value) value {
+		bs := a[0].([]value)
+		raw := make([]byte, len(bs))
+		for k, b := range bs {
+			c, ok := b.(uint8)
+			if !ok {
+				panic(unsupported{"yaml.Unmarshal on symbolic bytes"})
+			}
+			raw[k] = c
+		}
+		var node yaml.Node
+		if err := yaml.Unmarshal(raw, &node); err != nil {
+			return fr.i.nativeErr(err)
+		}
+		dst := a[1].(iface).v.(*value)
+		nt := fr.i.eng.namedType("gopkg.in/yaml.v3", "Node")
+		*dst = fr.i.eng.fromNative(reflect.ValueOf(node), nt, map[unsafe.Pointer]*value{})
+		return iface{}
+	}
+
+	// ---------- encoder used by validator.Encode ----------
+	in["encoding/json.NewEncoder"] = func(fr *frame, a []value) value {
+		var cell value = nativeObj{a[0]}
+		return &cell
+	}
+	in["(*encoding/json.Encoder).SetIndent"] = func(fr *frame, a []value) value { return nil }
+	in["(*encoding/json.Encoder).SetEscapeHTML"] = func(fr *frame, a []value) value { return nil }
+	in["(*encoding/json.Encoder).Encode"] = func(fr *frame, a []value) value {
+		ps := fr.i.ps
+		ps.store["encoded"] = a[1]
+		w := (*a[0].(*value)).(nativeObj).v.(value).(iface) // io.Writer holding *bytes.Buffer
+		buf := w.v.(*value)
+		var text value
+		if hasSymDeep(a[1], 0) {
+			text = "<<encoded-document-with-symbolic-parts>>"
+		} else {
+			var bb bytes.Buffer
+			enc := json.NewEncoder(&bb)
+			enc.SetIndent("", "  ")
+			enc.SetEscapeHTML(false)
+			if err := enc.Encode(toNativeJSON(a[1])); err != nil {
+				return fr.i.nativeErr(err)
+			}
+			text = bb.String()
+		}
+		*buf = nativeObj{text}
+		return iface{}
+	}
+	in["(*bytes.Buffer).String"] = func(fr *frame, a []value) value {
+		p := a[0].(*value)
+		if n, ok := (*p).(nativeObj); ok {
+			if s, ok := n.v.(string); ok {
+				return s
+			}
+			if s, ok := n.v.(value); ok {
+				return s
+			}
+		}
+		if st, ok := (*p).(structure); ok { // zero bytes.Buffer written through the model below
+			_ = st
+			return ""
+		}
+		panic(unsupported{"bytes.Buffer.String on unmodelled buffer"})
+	}
+
+	// ---------- small library pieces used by the PEG runtime ----------
+	in["unicode/utf8.DecodeRune"] = func(fr *frame, a []value) value {
+		bs := a[0].([]value)
+		if len(bs) == 0 {
+			return tuple{int32(0xFFFD), 0}
+		}
+		switch b := bs[0].(type) {
+		case uint8:
+			if b < 0x80 {
+				return tuple{int32(b), 1}
+			}
+			raw := make([]byte, 0, 4)
+			for k := 0; k < len(bs) && k < 4; k++ {
+				c, ok := bs[k].(uint8)
+				if !ok {
+					panic(unsupported{"DecodeRune over mixed symbolic bytes"})
+				}
+				raw = append(raw, c)
+			}
+			r, n := decodeRune(raw)
+			return tuple{r, n}
+		case sym:
+			if !b.ps.decide(smt.BvCmp(smt.OpBvUlt, b.t, smt.BV(0x80, 8))) {
+				panic(pathEnd{"assume-false", "non-ASCII symbolic byte (outside the stated bound)"})
+			}
+			return tuple{sym{t: smt.Zext(b.t, 32), k: types.Int32, ps: b.ps}, 1}
+		}
+		panic(unsupported{"DecodeRune"})
+	}
+	in["unicode.ToLower"] = func(fr *frame, a []value) value {
+		switch r := a[0].(type) {
+		case int32:
+			return unicode.ToLower(r)
+		case sym:
+			isUp := smt.And(smt.BvCmp(smt.OpBvSle, smt.BV('A', 32), r.t), smt.BvCmp(smt.OpBvSle, r.t, smt.BV('Z', 32)))
+			return mkScalar(r.ps, smt.Ite(isUp, smt.BvBin(smt.OpBvAdd, r.t, smt.BV(32, 32)), r.t), types.Int32)
+		}
+		panic(unsupported{"unicode.ToLower"})
+	}
+	in["(*sync.Pool).Get"] = func(fr *frame, a []value) value { return iface{} }
+	in["(*sync.Pool).Put"] = func(fr *frame, a []value) value { return nil }
+	in["strings.Repeat"] = func(fr *frame, a []value) value {
+		return strings.Repeat(mustStr(a[0], "Repeat"), int(asInt64(a[1])))
+	}
+}
+
+func binopKind(ps *pathState, op smt.Op, x, y value, k types.BasicKind) value {
+	return mkScalar(ps, smt.BvBin(op, termOf(x), termOf(y)), k)
+}
+
+func decodeRune(b []byte) (int32, int) {
+	r := []rune(string(b))
+	if len(r) == 0 {
+		return 0xFFFD, 1
+	}
+	return int32(r[0]), len(string(r[0]))
+}
+
+func hasSymDeep(v value, depth int) bool {
+	if depth > 40 {
+		return false
+	}
+	switch v := v.(type) {
+	case sym, sstr:
+		return true
+	case iface:
+		return hasSymDeep(v.v, depth+1)
+	case *omap:
+		if v == nil {
+			return false
+		}
+		for _, i := range v.liveIndices() {
+			if hasSymDeep(v.keys[i], depth+1) || hasSymDeep(v.vals[i], depth+1) {
+				return true
+			}
+		}
+	case []value:
+		for _, e := range v {
+			if hasSymDeep(e, depth+1) {
+				return true
+			}
+		}
+	case structure:
+		for _, e := range v {
+			if hasSymDeep(e, depth+1) {
+				return true
+			}
+		}
+	case array:
+		for _, e := range v {
+			if hasSymDeep(e, depth+1) {
+				return true
+			}
+		}
+	case *value:
+		if v != nil {
+			return hasSymDeep(*v, depth+1)
+		}
+	}
+	return false
+}
+
+// deepCopyJSON copies a JSON-like interpreter value (fresh maps per Eval call,
+// which is what OPA's Eval guarantees).
+func deepCopyJSON(v value) value {
+	switch v := v.(type) {
+	case iface:
+		return iface{t: v.t, v: deepCopyJSON(v.v)}
+	case *omap:
+		if v == nil {
+			return v
+		}
+		m := makeMap(v.kt, 0).(*omap)
+		for _, i := range v.liveIndices() {
+			m.insert(v.keys[i], deepCopyJSON(v.vals[i]))
+		}
+		return m
+	case []value:
+		if v == nil {
+			return v
+		}
+		out := make([]value, len(v))
+		for i := range v {
+			out[i] = deepCopyJSON(v[i])
+		}
+		return out
+	}
+	return v
+}
